@@ -1,7 +1,7 @@
 (* C10 -- rejecting every marked change in the XML formatter's output reproduces the left document.
 
    Model: XV.XmlFmt, tied to xmldiff/formatting.py by harness/xmlfmt_corr.py on every run; projection:
-   XV.Projections.reject.  Only statements here; proofs in XV.XmlFmtProofs0-5.
+   XV.Projections.reject.  Only statements here; proofs in XV.XmlFmtProofs0-5, R2, E, F.
 
    Vocabulary (see also Properties/C09.v)
      L                    the PREPARED left document as the formatter's working tree (comments removed);
@@ -9,8 +9,16 @@
                           the side conditions run_ok on the run: a text update meets a text without diff markup
                           (each text is updated at most once), a node is renamed at most once, inserted tags are not
                           diff:insert/delete/replace, action texts have no private-use character, attribute actions do
-                          not name diff: attributes, the tail of the root is not updated.  True of Differ scripts; evaluated
+                          not name diff: attributes, the tail of the root is not updated; with use_replace only: the
+                          maker has a free private-use code point for every character of the new text of a text update
+                          (room_ok; 6393 in all).  True of Differ scripts on documents of ordinary size; evaluated
                           by the harness (run_okb) on every generated script (a TESTED premise, reported as such);
+     tinv s               the maker s is one without text-tag placeholders: the six built-in placeholders, then only
+                          diff:replace openers (element diff:replace with the old text in old-text), counter in range;
+     sext s s'            every placeholder of s is a placeholder of s' with the same entry (makers only grow);
+     S                    in the step / finalize statements: the maker the strings of the working tree are READ with --
+                          any maker with tinv S that extends the maker of the step's result (in C10_reject_partial it is
+                          the final maker; with use_replace = false every maker is Placeholder.ph_init);
      unmarked L           no diff:insert / diff:rename attribute in the document;
      erase_attrs          the document without its attributes.
 
@@ -23,28 +31,31 @@
      xequiv_r ws a b      as xequiv, except that the value WILD ("not recorded": the value of a deleted attribute) on
                           the left matches any value.
 
-   PARTIAL.  Proved, for configurations without text tags and without use_replace: rejecting every marked change gives
-   back the left document -- TAGS (diff:rename undone), STRUCTURE (inserted elements and moved copies dropped with the
-   text region after them, deleted and moved-away elements restored), TEXTS and TAILS (diff:insert wrappers dropped,
-   diff:delete wrappers restored), and ATTRIBUTES (names and values restored from the diff:*-attr annotations, deleted
+   PARTIAL.  Proved, for configurations without text tags, with or without use_replace: rejecting every marked change
+   gives back the left document -- TAGS (diff:rename undone), STRUCTURE (inserted elements and moved copies dropped with
+   the text region after them, deleted and moved-away elements restored), TEXTS and TAILS (diff:insert wrappers dropped,
+   diff:delete wrappers restored, diff:replace wrappers replaced by their old-text), and ATTRIBUTES (names and values restored from the diff:*-attr annotations, deleted
    attributes with an unrecorded value) -- up to whitespace normalisation when normalize & WS_TEXT
    (C10_reject_attrs_partial; C10_reject_partial is the same without the attribute premises and without attributes).
    Missing for the full statement:
    (1) namespaced attribute names and names/values containing ; : { } (the annotation strings are then ambiguous:
        "a;b" is one value or two) -- excluded by run_ok_attr / attrs_ok;
-   (2) text_tags <> [] and use_replace = true: correspondence + reject oracle only (and use_replace with text_tags is
-       the open finding "use_replace-with-text_tags": old-text then holds raw placeholder characters);
+   (2) text_tags <> []: proved only at the level of the STRING one text update writes (C10_texttag_update_flat_partial,
+       use_replace = false): read flattened with every marked change rejected it is the flattened old text (vocabulary
+       and scope: Properties/C09.v, C09_texttag_update_flat_partial); the tree level is covered by correspondence +
+       reject oracle only (and use_replace with text_tags is the open finding "use_replace-with-text_tags": old-text
+       then holds raw placeholder characters);
    (3) the premises run_ok / run_ok_attr are conditions on the run rather than consequences of "script = Differ output". *)
 From Coq Require Import List NArith ZArith Bool.
 Import ListNotations.
 Require Import XV.Str XV.Json XV.TextFormat XV.Forest XV.Path XV.XmlFmt XV.Projections
-               XV.XmlFmtProofs1 XV.XmlFmtProofs2 XV.XmlFmtProofs3 XV.XmlFmtProofs4 XV.XmlFmtProofs5 XV.XmlFmtProofs9 XV.XmlFmtProofsF.
+               XV.XmlFmtProofs1 XV.XmlFmtProofs2 XV.XmlFmtProofsR2 XV.XmlFmtProofs3 XV.XmlFmtProofs4 XV.XmlFmtProofs5 XV.XmlFmtProofs9 XV.XmlFmtProofsF XV.XmlFmtProofsT1.
 Require XV.Placeholder XV.PlaceholderUndo XV.DMP.
 Local Open Scope N_scope.
 
 Theorem C10_reject_partial :
   forall (c : cfg) (o : oracle) (rootns : list (option str * str)) (gs : list gaction) (L T : xtree),
-  c_tt c = [] -> c_replace c = false ->
+  c_tt c = [] ->
   PlaceholderUndo.npua L = true -> clean_tags L -> unmarked L ->
   run_ok c o rootns (FS L Placeholder.ph_init [(Some DIFF_PREFIX, DIFF_NS)]) gs ->
   xml_format c o rootns Placeholder.ph_init gs L = FOk T ->
@@ -55,7 +66,7 @@ Print Assumptions C10_reject_partial.
 (* the same WITH the attributes *)
 Theorem C10_reject_attrs_partial :
   forall (c : cfg) (o : oracle) (rootns : list (option str * str)) (gs : list gaction) (L T : xtree),
-  c_tt c = [] -> c_replace c = false ->
+  c_tt c = [] ->
   PlaceholderUndo.npua L = true -> clean_tags L -> nodiff L -> attrs_ok L ->
   run_ok c o rootns (FS L Placeholder.ph_init [(Some DIFF_PREFIX, DIFF_NS)]) gs ->
   run_ok_attr c o rootns (FS L Placeholder.ph_init [(Some DIFF_PREFIX, DIFF_NS)]) gs ->
@@ -64,23 +75,70 @@ Theorem C10_reject_attrs_partial :
 Proof. intros c o rootns gs L T _. exact (reject_format_attrs c o rootns gs L T). Qed.
 Print Assumptions C10_reject_attrs_partial.
 
-(* the handlers never change what rejection reads, one action at a time (the refinement step) *)
+(* the handlers never change what rejection reads, one action at a time (the refinement step); the maker only grows *)
 Theorem C10_reject_step :
-  forall (c : cfg) (o : oracle) (rootns : list (option str * str)) (st : fstate) (d : dact) (st' : fstate),
-  c_replace c = false -> winv (fs_tree st) -> fs_ph st = Placeholder.ph_init -> step_ok rootns st d ->
+  forall (S : Placeholder.state) (c : cfg) (o : oracle) (rootns : list (option str * str)) (st : fstate) (d : dact) (st' : fstate),
+  tinv S -> winv S (fs_tree st) -> tinv (fs_ph st) -> sext (fs_ph st') S -> step_ok rootns st d -> room_ok c st d ->
   handle_d c o rootns st d = FOk st' ->
-  winv (fs_tree st') /\ fs_ph st' = Placeholder.ph_init /\
-  vr (ws_text c) (fs_tree st') = vr (ws_text c) (fs_tree st).
-Proof. intros c o rootns st d st' H. exact (step_reject c o rootns H st d st'). Qed.
+  winv S (fs_tree st') /\ (tinv (fs_ph st') /\ sext (fs_ph st) (fs_ph st')) /\
+  vr S (ws_text c) (fs_tree st') = vr S (ws_text c) (fs_tree st).
+Proof. intros S c o rootns st d st' H. exact (step_reject S H c o rootns st d st'). Qed.
 Print Assumptions C10_reject_step.
 
 (* finalize never fails on the trees the handlers build (no IndexError in undo_string), and the two
    projections of its result are the two views of the working tree *)
-Theorem C10_finalize_views : forall W, run_tree W -> clean_tags W -> plain (xtail W) ->
-  exists T, finalize Placeholder.ph_init W = FOk T /\
-            accept T = set_tail (aw W) (xtail T) /\ reject T = set_tail (rw W) (xtail T).
-Proof. exact finalize_run. Qed.
+Theorem C10_finalize_views : forall S W, tinv S -> run_tree S W -> clean_tags W -> plain (xtail W) ->
+  exists T, finalize S W = FOk T /\
+            accept T = set_tail (aw W) (xtail T) /\ reject T = set_tail (rw S W) (xtail T).
+Proof. intros S W H. exact (finalize_run S H W). Qed.
 Print Assumptions C10_finalize_views.
+
+(* what a text update writes (XmlFmtProofsR2.make_diff_tags_gen): a run of pieces whose rejected reading is the old
+   text and whose accepted reading is the new text *)
+Theorem C10_text_update :
+  forall (c : cfg) (o : oracle) (s : Placeholder.state) (left right : str) (in_tail : bool),
+  tinv s -> plain left -> plain right ->
+  (c_replace c = true -> Placeholder.ctr s + N.of_nat (length (norm_if c right)) <= Placeholder.PUA_END) ->
+  exists s' ps, make_diff_tags c o s left right in_tail = FOk (s', encp ps, match ps with [] => false | _ => true end) /\
+     tinv s' /\ sext s s' /\ Forall (piece_ok s') ps /\
+     rstr s' (encp ps) = norm_if c left /\ astr (encp ps) = norm_if c right.
+Proof. exact text_update_readings. Qed.
+Print Assumptions C10_text_update.
+
+(* WITH text tags (use_replace = false), one text update, at the level of the string written into node.text:
+     s               the maker after prepare(): pinv s (table invariants; a marked element key holds the element it
+                     was filed with; the keys of the four wrapper placeholders are attribute-free), capart s (the close
+                     placeholder of a formatting element is not a wrapper placeholder), wf_cls (the close placeholder of
+                     an OPEN entry is a CLOSE entry);
+     txt_ok s c      a character of the two texts is not a wrapper placeholder, and is a placeholder of s (if it stands
+                     for an element, the element carries none of diff:insert/delete(-formatting)) or lies outside the
+                     private-use range;
+     flat0 s y       the flattened content of y: characters and element placeholders (atom_of: the table key of the
+                     element, the four marks removed), OPEN / CLOSE placeholders erased;
+     fl false s' false x   x read flattened with every marked change rejected (XmlFmtProofsT1). *)
+Theorem C10_texttag_update_flat_partial :
+  forall (c : cfg) (o : oracle) (s : Placeholder.state) (left right : str) (s' : Placeholder.state) (x : str) (any : bool),
+  c_replace c = false -> pinv s -> DMP.wf_cls (cls_of s) -> capart s ->
+  Forall (txt_ok s) left -> Forall (txt_ok s) right ->
+  make_diff_tags c o s left right false = FOk (s', x, any) -> Placeholder.ctr s' <= Placeholder.PUA_END ->
+  fl false s' false x = flat0 s (norm_if c left).
+Proof.
+  intros c o s left right s' x any H1 H2 H3 H4 H5 H6 H7 H8.
+  exact (proj2 (proj2 (text_update_flat c o s left right s' x any H1 H2 H3 H4 H5 H6 H7 H8))).
+Qed.
+Print Assumptions C10_texttag_update_flat_partial.
+
+(* non-vacuity: a maker with one element placeholder, a<i k="v"/>b -> ab: the premises hold, the update writes
+   a, the placeholder of the copy marked diff:delete, b *)
+Example C10_texttag_example :
+  (pinv ex_s /\ capart ex_s /\ DMP.wf_cls (cls_of ex_s) /\
+   Forall (txt_ok ex_s) [97; ex_c; 98] /\ Forall (txt_ok ex_s) [97; 98]) /\
+  exists s' x any,
+    make_diff_tags ex_cfg ex_o ex_s [97; ex_c; 98] [97; 98] false = FOk (s', x, any) /\
+    fl true s' false x = flat0 ex_s [97; 98] /\ fl false s' false x = flat0 ex_s [97; ex_c; 98] /\
+    flat0 ex_s [97; ex_c; 98] = [AC 97; atom_of ex_el; AC 98] /\ x = [97; 57352; 98].
+Proof. exact (conj ex_premises ex_flat). Qed.
+Print Assumptions C10_texttag_example.
 
 (* Non-vacuity: <a><b>xy</b>t<c/></a> with the script of Properties/C09.v (move, text update, rename, attribute,
    insert + delete), given as the namedtuples the differ yields. *)
@@ -105,13 +163,13 @@ Example C10_example :
 Proof.
   destruct (xml_format exC exO [] Placeholder.ph_init exGs exW) as [T|e] eqn:E; [|vm_compute in E; discriminate].
   exists T. split; [reflexivity|]. split.
-  - apply (C10_reject_partial exC exO [] exGs exW T eq_refl eq_refl).
+  - apply (C10_reject_partial exC exO [] exGs exW T eq_refl).
     + reflexivity.
     + repeat (constructor; try reflexivity).
     + repeat (constructor; try reflexivity).
     + apply run_okb_sound. vm_compute. reflexivity.
     + exact E.
-  - apply (C10_reject_attrs_partial exC exO [] exGs exW T eq_refl eq_refl).
+  - apply (C10_reject_attrs_partial exC exO [] exGs exW T eq_refl).
     + reflexivity.
     + repeat (constructor; try reflexivity).
     + repeat (constructor; try reflexivity).
@@ -121,3 +179,25 @@ Proof.
     + exact E.
 Qed.
 Print Assumptions C10_example.
+
+(* Non-vacuity with use_replace: "xy" -> "xz" is written x<diff:replace old-text="y">z</diff:replace> *)
+Definition exC2 : cfg := Cfg 0 true [] [].
+Example C10_example_replace :
+  exists T, xml_format exC2 exO [] Placeholder.ph_init exGs exW = FOk T /\
+            xequiv_r (ws_text exC2) (reject T) exW /\
+            existsb (fun k => match wrapper_kind k with Some WRep => true | _ => false end)
+                    (flat_map Placeholder.xkids (Placeholder.xkids T)) = true.
+Proof.
+  destruct (xml_format exC2 exO [] Placeholder.ph_init exGs exW) as [T|e] eqn:E; [|vm_compute in E; discriminate].
+  exists T. split; [reflexivity|]. split.
+  - apply (C10_reject_attrs_partial exC2 exO [] exGs exW T eq_refl).
+    + reflexivity.
+    + repeat (constructor; try reflexivity).
+    + repeat (constructor; try reflexivity).
+    + repeat (constructor; try (split; constructor)).
+    + apply run_okb_sound. vm_compute. reflexivity.
+    + apply run_ok_attrb_sound. vm_compute. reflexivity.
+    + exact E.
+  - revert E. vm_compute. intros E. inversion E. reflexivity.
+Qed.
+Print Assumptions C10_example_replace.
